@@ -1065,7 +1065,7 @@ fn c13_borrowed_aligned_sync_pess() {
 
 // C18: truncate on an arena that has handed out nothing yet (allocated == data_offset): header, identification bytes
 // and the reserved prefix live below data_offset and must survive
-pub(crate) fn c18_truncate_fresh(unify: bool, reserved: u32, n: usize) {
+pub(crate) fn c18_truncate_fresh(unify: bool, reserved: u32, n: usize, follow: bool) {
   let mut arena: unsync::Arena = Options::new().with_capacity(64).with_unify(unify).with_reserved(reserved).with_freelist(Freelist::Optimistic).with_minimum_segment_size(12).alloc::<unsync::Arena>().unwrap();
   let dofs = arena.data_offset();
   let v: u8 = kani::any();
@@ -1084,6 +1084,11 @@ pub(crate) fn c18_truncate_fresh(unify: bool, reserved: u32, n: usize) {
   if reserved > 0 {
     assert!(arena.reserved_slice()[0] == v, "C18: the reserved prefix survives truncate");
   }
+  if !follow {
+    kani::cover!(true, "state-only variant: truncate returned");
+    core::mem::forget(arena);
+    return;
+  }
   let m: u32 = kani::any();
   kani::assume(m >= 1 && m <= 40);
   let g = do_alloc::<unsync::Arena, u8>(&arena, Kind::Bytes, m);
@@ -1094,15 +1099,21 @@ pub(crate) fn c18_truncate_fresh(unify: bool, reserved: u32, n: usize) {
   kani::cover!(g.ok, "allocation after truncate");
   core::mem::forget(arena);
 }
-// @h props=C18 tier=quick timeout=1200 mem=28 bounds=CAP=64,unify,reserved=5,nothing-allocated,n=96
+// @h props=C18 tier=quick timeout=1200 mem=28 bounds=CAP=64,unify,reserved=5,nothing-allocated,n=96,state-only optcover=allocation_after_truncate
 #[kani::proof]
 #[kani::unwind(10)]
 fn c18_truncate_fresh_unify_r5() {
-  c18_truncate_fresh(true, 5, 96);
+  c18_truncate_fresh(true, 5, 96, false);
 }
-// @h props=C18 tier=quick timeout=1200 mem=28 bounds=CAP=64,plain,reserved=3,nothing-allocated,n=40
+// @h props=C18 tier=thorough timeout=1800 mem=28 bounds=CAP=64,unify,reserved=5,nothing-allocated,n=96,follow-up-request optcover=state-only_variant
+#[kani::proof]
+#[kani::unwind(10)]
+fn c18_truncate_fresh_unify_r5_follow() {
+  c18_truncate_fresh(true, 5, 96, true);
+}
+// @h props=C18 tier=quick timeout=1200 mem=28 bounds=CAP=64,plain,reserved=3,nothing-allocated,n=40 optcover=state-only_variant
 #[kani::proof]
 #[kani::unwind(10)]
 fn c18_truncate_fresh_plain_r3() {
-  c18_truncate_fresh(false, 3, 40);
+  c18_truncate_fresh(false, 3, 40, true);
 }
